@@ -595,8 +595,13 @@ PROPS["C16"] = dict(
     ],
 )
 
-U32 = {r"select_in_word_ctz": 66, r"structurals|matching_close|outside_strings|value_end|starts_value|recognise|c32_": 12,
-       r"find_string_end|find_number_end": 12}
+def u32_(n):
+    lin = n + 3
+    return {r"select_in_word_ctz": 66, r"structurals|ordinal_of|matching_close|outside_strings|value_end|starts_value|recognise|c32_": lin,
+            r"find_string_end|find_number_end": lin, r"build_bp_index|build_l[012]_index": 2, r"find_close_from": 3,
+            r"find_close_in_word_fast|word_min_excess|word_max_excess_rev": 10, r"process_chunk_simple": lin,
+            r"build_semi_index_simple_(sse2|avx2)": 3, r"ib_rank1": 3, r"scan_select|scan_scalar": 3, r"structural_count|fold": 3}
+
 
 PROPS["C32"] = dict(
     module="c32",
@@ -605,20 +610,24 @@ PROPS["C32"] = dict(
     outside="documents longer than 8 bytes; the AVX2 simple builder inside SimpleJsonIndex::build (SSE2 path taken; C05 decides builder equality)",
     assumptions=["is_x86_feature_detected!(avx2) = false (SSE2 builder), CTZ in-word select", "validity of the input is the harness recogniser's Accept (assumed)"],
     harnesses=[
-        H("c32_valid_len2", timeout=900, unwindset=U32, bounds="all valid 2-byte documents"),
-        H("c32_valid_len4", timeout=1800, unwindset=U32, bounds="all valid 4-byte documents"),
-        H("c32_valid_len5", timeout=2700, unwindset=U32, tier="thorough", bounds="all valid 5-byte documents"),
-        H("c32_valid_len6", timeout=2700, unwindset=U32, bounds="all valid 6-byte documents"),
-        H("c32_valid_len7", timeout=2700, unwindset=U32, tier="thorough", bounds="all valid 7-byte documents"),
-        H("c32_valid_len8", timeout=2700, unwindset=U32, tier="thorough", bounds="all valid 8-byte documents"),
-        H("c32_witness_must_fail", kind="witness", tier="thorough", timeout=1800, unwindset=U32),
+        H("c32_structural_len2", timeout=1800, unwindset=u32_(2), tier="quick", bounds="all valid 2-byte documents: structural queries at every position"),
+        H("c32_structural_len4", timeout=1800, unwindset=u32_(4), tier="quick", bounds="all valid 4-byte documents: structural queries at every position"),
+        H("c32_structural_len6", timeout=1800, unwindset=u32_(6), tier="thorough", bounds="all valid 6-byte documents: structural queries at every position"),
+        H("c32_structural_len8", timeout=1800, unwindset=u32_(8), tier="thorough", bounds="all valid 8-byte documents: structural queries at every position"),
+        H("c32_close_len4", timeout=1800, unwindset=u32_(4), tier="quick", bounds="all valid 4-byte documents: close queries at every position"),
+        H("c32_close_len6", timeout=1800, unwindset=u32_(6), tier="thorough", bounds="all valid 6-byte documents: close queries at every position"),
+        H("c32_close_len8", timeout=1800, unwindset=u32_(8), tier="thorough", bounds="all valid 8-byte documents: close queries at every position"),
+        H("c32_skip_len4", timeout=1800, unwindset=u32_(4), tier="quick", bounds="all valid 4-byte documents: skip queries at every position"),
+        H("c32_skip_len6", timeout=1800, unwindset=u32_(6), tier="thorough", bounds="all valid 6-byte documents: skip queries at every position"),
+        H("c32_skip_len8", timeout=1800, unwindset=u32_(8), tier="thorough", bounds="all valid 8-byte documents: skip queries at every position"),
+        H("c32_witness_must_fail", kind="witness", tier="thorough", timeout=1800, unwindset=u32_(4)),
     ],
 )
 
 U04 = {r"d_find_close|d_find_open|d_enclose|d_select0|c04_": 134, r"select_in_word_ctz|spec.*select_in_word": 66,
        r"spec.*rank1|spec.*select1|masked": 5, r"find_unmatched_close_in_word": 66,
-       r"2bp10find_close(Cs|[.])|2bp9find_open(Cs|[.])|2bp7enclose(Cs|[.])": 12, r"build_bp_index|build_l[012]_index": 6,
-       r"find_close_from": 6, r"find_close_in_word_fast|word_min_excess|word_max_excess_rev": 10, r"BalancedParens.*7select0": 9}
+       r"2bp10find_close(Cs|[.])|2bp9find_open(Cs|[.])|2bp7enclose(Cs|[.])": 12, r"build_bp_index|build_l[012]_index": 3,
+       r"find_close_from": 4, r"find_close_in_word_fast|word_min_excess|word_max_excess_rev": 10, r"BalancedParens.*7select0": 9}
 
 PROPS["C04"] = dict(
     module="c04",
